@@ -85,6 +85,7 @@ SPECIAL = [
     ('decorative-tree', Block([('x', '.5*y + 1.'), ('y', '.5*x'), ('d1', 'x + y'), ('d2', 'd1*2'), ('d3', 'd1 - d2'), ('d4', 'd3 + d2 + x')], maxtime=3)),
     ('decorative-forward-chain', Block([('inc', 'y'), ('disp', 'inc'), ('base', 'disp'), ('spend', 'base + 1.5'), ('y', '.5*y + g')],
                                        exos=[('g', '[1., 3., 7., 2.]')], maxtime=3)),
+    ('weakly-coupled', Block([('x', 'g + y'), ('y', '0.0001*x + 5.'), ('d', 'x - y')], exos=[('g', '[64., 64., 64., 96.5, 96.5, 96.5]')], maxtime=5)),
     ('user-time', Block([('t', 'LAG_t + 0.25'), ('x', '.5*x + t')], lags=[('LAG_t', 't')], ics={'t': '2000.'}, maxtime=3)),
 ]
 
@@ -373,6 +374,18 @@ def run_unit(unit, tier):
             res['indeterminate'] += indet
             core.bump(res['outcomes'], '%s:%s' % (label, outcome))
             res['violations'].extend(viols[:2])
+        if label == 'weakly-coupled':
+            # boundary value of the tolerance: 0 ("iterate until nothing moves"), stated in the text or given through the attribute
+            for red in (True, False):
+                for tolsrc in ('text', 'attribute-after-parse'):
+                    dig.add((blk.key(), red, '0', tolsrc))
+                    outcome, viols, indet, sim = run_case(label, blk, red, '0', 400, funcs, tolsrc=tolsrc)
+                    res['evaluations'] += 1
+                    if outcome.startswith('returned'):
+                        res['nontrivial'] += 1
+                    res['indeterminate'] += indet
+                    core.bump(res['outcomes'], '%s:tolerance-zero:%s:%s' % (label, tolsrc, outcome))
+                    res['violations'].extend(viols[:2])
         res['samples'] = [{'special': label, 'block': blk.text()}]
     best = {}
     for v in res['violations']:
